@@ -253,8 +253,10 @@ def impl_lfiles(mods, recs, rng):
 # ------------------------------------------------------------------ generators
 
 IDENT_POOL = [b'', b'A', b'LONG-NAME', b'UNITS', b'DIMENSION', b'X', b'TOOL', b'PARAMETER', b'ZONE', b'Q' * 255, b'\x00\xff', b'a b',
-              b'EQUIPMENT', b'COMMENT', b'9', b'VALUES', b'AXIS', b'DESCRIPTION', b'STATUS', b'k' * 40]
-UNITS_POOL = [b'', b'', b'', b'm', b'ft', b'0.1 in', b'deg C', b'm/s2', b'\xb0', b'%', b'u' * 255]
+              b'EQUIPMENT', b'COMMENT', b'9', b'VALUES', b'AXIS', b'DESCRIPTION', b'STATUS', b'k' * 40,
+              # identifiers that only an exact (byte-wise) comparison keeps apart: case, blanks, control bytes
+              b'a', b' A', b'A ', b'long-name', b'Long-Name', b' UNITS', b'UNITS ', b'x', b'A  B', b'A B', b'a B', b'TOOL\x00', b'\tTOOL', b'zone']
+UNITS_POOL = [b'', b'', b'', b'm', b'ft', b'0.1 in', b'deg C', b'm/s2', b'\xb0', b'%', b'u' * 255, b'M', b' m', b'm ', b'FT']
 
 
 def gen_val(rng, rc):
@@ -291,8 +293,45 @@ def gen_val(rng, rc):
 
 
 def gen_obname(rng):
+    r = rng.random()
+    if r < 0.4: ident = rng.choice(IDENT_POOL)
+    elif r < 0.7: ident = bytes(rng.randint(65, 90) for _ in range(rng.randint(1, 6)))
+    else: ident = bytes(rng.choice(b'ABCabcRTrtGg 019_-') for _ in range(rng.randint(1, 5)))
     return [rng.choice([0, 1, 2, 127, 128, 300, 16384, 2**30 - 1, rng.randint(0, 10)]), rng.randint(0, 255) if rng.random() < 0.3 else rng.randint(0, 3),
-            (rng.choice(IDENT_POOL) if rng.random() < 0.5 else bytes(rng.randint(65, 90) for _ in range(rng.randint(1, 6)))).hex()]
+            ident.hex()]
+
+
+NEAR_KINDS = ('case', 'trailing-blank', 'leading-blank', 'inner-blank', 'origin', 'copy', 'nul', 'case+blank')
+
+
+def near_duplicate_name(rng, name):
+    """A DIFFERENT object name that an identifier-folding comparison (upper/lower, strip, whitespace normalisation,
+    ignoring origin or copy number) would take for `name`; returns (name', kind) or None."""
+    o, c, ih = name
+    i = bytes.fromhex(ih)
+    kind = rng.choice(NEAR_KINDS)
+    if kind == 'case':
+        j = rng.choice([i.upper(), i.lower(), i.swapcase(), i.title()])
+    elif kind == 'trailing-blank': j = i + rng.choice([b' ', b'  ', b'\t'])
+    elif kind == 'leading-blank': j = rng.choice([b' ', b'  ']) + i
+    elif kind == 'inner-blank': j = i.replace(b' ', b'  ', 1) if b' ' in i else i[:1] + b' ' + i[1:]
+    elif kind == 'nul': j = i + b'\x00'
+    elif kind == 'case+blank': j = i.swapcase() + b' '
+    elif kind == 'origin': return [o + 1 if o < 2**30 - 1 else o - 1, c, ih], kind
+    else: return [o, (c + 1) % 256, ih], kind
+    if j == i or len(j) > 255: return None
+    return [o, c, j.hex()], kind
+
+
+def add_near_duplicates(rng, rows, new_row, feats, p=0.35):
+    """give some rows a name that differs from an earlier row's only in case / blanks / origin / copy number"""
+    names = {tuple(r['name']) for r in rows}
+    for k in range(1, len(rows)):
+        if rng.random() < p:
+            nd = near_duplicate_name(rng, rows[rng.randrange(k)]['name'])
+            if nd is not None and tuple(nd[0]) not in names:
+                names.discard(tuple(rows[k]['name'])); rows[k]['name'] = nd[0]; names.add(tuple(nd[0]))
+                feats.add('near-duplicate-names'); feats.add('near-duplicate-' + nd[1])
 
 
 def gen_attr(rng, label, with_value=None):
@@ -359,6 +398,7 @@ def gen_table(rng, stype=None, max_cols=8, max_rows=6):
                 if a['units'] != t['units']: feats.add('override-units')
                 cells.append(a)
         rows.append({'name': name, 'cells': cells})
+    add_near_duplicates(rng, rows, None, feats)
     t = {'stype': stype.hex(), 'sname': sname.hex(), 'cols': cols, 'rows': rows}
     return t, feats
 
@@ -401,6 +441,7 @@ def gen_shared_default_table(rng):
                 a['value'] = [gen_val(rng, a['rc']) for _ in range(a['count'])]
             cells.append(a)
         rows.append({'name': name, 'cells': cells})
+    add_near_duplicates(rng, rows, None, feats)
     return {'stype': rng.choice(IDENT_POOL[1:]).hex(), 'sname': b''.hex(), 'cols': cols, 'rows': rows}, feats
 
 
@@ -468,6 +509,8 @@ def channel_frame_tables(rng, nframes=2):
     ccols = [{'inv': False, 'attr': _a(b'LONG-NAME', 1, 20)}, {'inv': False, 'attr': _a(b'REPRESENTATION-CODE', 1, 15)},
              {'inv': False, 'attr': _a(b'UNITS', 1, 27)}, {'inv': False, 'attr': _a(b'DIMENSION', 1, 18)}]
     crows = []
+    # frame object names that differ only in case / a blank / (below) origin: they key the log pass and the frame map
+    fr_names = rng.choice([[b'FR0', b'FR1', b'FR2'], [b'Fr', b'FR', b'fr'], [b'FR', b'FR ', b' FR'], [b'Rt', b'RT', b'rT']])
     for f in range(nframes):
         names = []
         for c in range(rng.randint(1, 3)):
@@ -477,7 +520,7 @@ def channel_frame_tables(rng, nframes=2):
             dims = [1] if c == 0 else rng.choice([[1], [2], [2, 2]])
             crows.append({'name': nm, 'cells': [_a(b'LONG-NAME', 1, 20, b'', [['b', b'ln'.hex()]]), _a(b'REPRESENTATION-CODE', 1, 15, b'', [['i', rc]]),
                                                  _a(b'UNITS', 1, 27, b'', [['b', b'm'.hex()]]), _a(b'DIMENSION', len(dims), 18, b'', [['i', d] for d in dims])]})
-        frames.append(([1, 0, (b'FR%d' % f).hex()], names))
+        frames.append(([1, 0, (fr_names[f]).hex()], names))
     fcols = [{'inv': False, 'attr': _a(b'DESCRIPTION', 1, 20)}, {'inv': False, 'attr': _a(b'CHANNELS', 1, 23)}]
     frows = [{'name': nm, 'cells': [_a(b'DESCRIPTION', 1, 20), _a(b'CHANNELS', len(chs), 23, b'', [['o', c] for c in chs])]} for nm, chs in frames]
     ct = {'stype': b'CHANNEL'.hex(), 'sname': b''.hex(), 'cols': ccols, 'rows': crows}
@@ -504,7 +547,9 @@ def gen_file_items(rng, nfiles):
         with_frames = rng.random() < 0.6
         extra = []
         for _ in range(rng.randint(0, 4)):
-            t, _f = gen_table(rng, stype=rng.choice([b'PARAMETER', b'TOOL', b'EQUIPMENT', b'ZONE', b'ORIGIN', b'COMMENT', b'X']), max_cols=5, max_rows=3)
+            t, _f = gen_table(rng, stype=rng.choice([b'PARAMETER', b'TOOL', b'EQUIPMENT', b'ZONE', b'ORIGIN', b'COMMENT', b'X',
+                                                      # set types that only an exact comparison keeps apart from the structural ones
+                                                      b'file-header', b'File-Header', b'FILE-HEADER ', b' FILE-HEADER', b'FILE_HEADER', b'origin', b'channel', b'Frame', b'CHANNEL ', b' FRAME', b'frame']), max_cols=5, max_rows=3)
             extra.append(['E', rng.choice([5, 5, 6, 1, 200]), t])
         if with_frames:
             ct, ft, fnames, sizes = channel_frame_tables(rng, rng.randint(1, 3))
@@ -581,15 +626,60 @@ def expected_files_txt(files, recs):
 
 # ------------------------------------------------------------------ run
 
-def oracle_eflr(ctx, mods, t, ch, payload, impl_out=None):
-    """Property on the implementation alone: the decoded table is the generated abstract table."""
+def folded_variants(name):
+    """names an identifier-folding comparison would confuse with `name` (o, c, ident bytes)"""
+    o, c, i = name
+    out = {(o, c, i.upper()), (o, c, i.lower()), (o, c, i.swapcase()), (o, c, i.strip()), (o, c, i + b' '), (o, c, b' ' + i),
+           (o, c, b' '.join(i.split())), (o, c, i.rstrip(b'\x00')), (o + 1, c, i), (o, (c + 1) % 256, i), (0, c, i), (o, 0, i)}
+    out.discard((o, c, i))
+    return out
+
+
+def name_map_check(mods, e, t):
+    """Objects are identified by their exact name: the name map has one key per encoded object (compared field by field,
+    not through ObjectName.__eq__), looking a row up by its name gives that row, and no name that was NOT encoded —
+    in particular none that differs from an encoded one only in case, blanks, origin or copy number — is a key."""
+    File, RepCode, LogicalFile, EFLR = mods
+    names = [(r['name'][0], r['name'][1], bytes.fromhex(r['name'][2])) for r in t['rows']]
+    if len(e) != len(names) or len(e.objects) != len(names):
+        return f'{len(names)} objects encoded, the table has {len(e.objects)} rows'
+    keys = sorted((k.O, k.C, bytes(k.I)) for k in e.object_name_map.keys())
+    if keys != sorted(names):
+        return f'object_name_map keys {keys[:4]} != encoded object names {sorted(names)[:4]}'
+    for idx, nm in enumerate(names):
+        key = RepCode.ObjectName(*nm)
+        if e.object_name_map.get(key) != idx:
+            return f'object_name_map[{nm}] = {e.object_name_map.get(key)} but the object is row {idx}'
+        if e[key] is not e.objects[idx]:
+            got = e[key].name
+            return f'looking up {nm} gives the row named {(got.O, got.C, bytes(got.I))}'
+    enc = set(names)
+    for nm in names:
+        for v in folded_variants(nm):
+            if v not in enc and len(v[2]) < 256 and RepCode.ObjectName(*v) in e.object_name_map:
+                return f'{v} was not encoded (only {nm} was) but is found in object_name_map'
+    return None
+
+
+def oracle_eflr(ctx, mods, t, ch, payload, impl_out=None, obj=None):
+    """Property on the implementation alone: the decoded table is the generated abstract table (row count, every row's
+    name and cells), and its objects are keyed by exactly the encoded names."""
     ctx.count('oracle_cases')
     want = 'ok ' + table_txt(t, True)
-    got = impl_out if impl_out is not None else impl_eflr(mods, payload)
+    if impl_out is None:
+        impl_out, obj = impl_eflr_obj(mods, payload)
+    got = impl_out
+    case = {'op': 'eflr', 'table': t, 'choices': ch, 'payload': payload.hex()}
     if got != want:
-        case = {'op': 'eflr', 'table': t, 'choices': ch, 'payload': payload.hex()}
-        ctx.fail(case, f'decoded table differs from the encoded one: got {got[:300]!r} want {want[:300]!r}')
+        nrows = f' ({len(obj.objects)} rows for {len(t["rows"])} objects encoded)' if obj is not None and len(obj.objects) != len(t['rows']) else ''
+        ctx.fail(case, f'decoded table differs from the encoded one{nrows}: got {got[:300]!r} want {want[:300]!r}')
         return False
+    if obj is not None:
+        ctx.count('oracle_cases')
+        bad = name_map_check(mods, obj, t)
+        if bad:
+            ctx.fail(case, 'object identity: ' + bad)
+            return False
     return True
 
 
@@ -597,7 +687,7 @@ def run(ctx):
     mods = _impl()
     rng = ctx.rng
     # ---------------- (i) tables through the spec encoder
-    N = ctx.n(12000, 100000)
+    N = ctx.n(10000, 100000)
     cases = []
     for _ in range(N):
         t, feats = gen_shared_default_table(rng) if rng.random() < 0.15 else gen_table(rng)
@@ -614,7 +704,7 @@ def run(ctx):
     for (t, ch, feats), p, m in zip(cases, payloads, dec):
         out, obj = impl_eflr_obj(mods, p)
         ctx.corr('eflr', {'op': 'eflr', 'payload': p.hex()}, out, m)
-        ok = oracle_eflr(ctx, mods, t, ch, p, out)
+        ok = oracle_eflr(ctx, mods, t, ch, p, out, obj)
         # a record already presented must not change when another record is parsed afterwards
         if prev is not None and prev[1] is not None:
             ctx.count('oracle_cases')
@@ -649,7 +739,7 @@ def run(ctx):
         ctx.corr('eflr-duplicate-objects', {'op': 'eflr-raw', 'payload': p.hex()}, impl_eflr(mods, p), m)
     # ---------------- (ii) malformed payloads: correspondence of the error branches
     mal = []
-    for _ in range(ctx.n(12000, 100000)):
+    for _ in range(ctx.n(10000, 100000)):
         p = rng.choice(payloads)
         if len(p) > 600: continue
         mal.append(mutate(rng, p))
